@@ -613,6 +613,27 @@ for ($i = 0; $i < %d; $i++) {
 }
 `, n)
 		return a, "<?php\n" + basicsProbe + moreProbe, []string{fmt.Sprintf("bulk_distinct_strings_%d", n)}
+	case 6:
+		// A and B include the same files (by absolute path): what a file defines and returns
+		// must reach every VM that includes it, whatever an earlier VM of the process did with it
+		uses := []struct{ label, a, b string }{
+			{"require_defs", `$c = require "@INC@/lib_defs.php";`, `$cfg = require "@INC@/lib_defs.php"; echo "require_defs=", json_encode($cfg), "|", (new IncK())->tag(), "|", inc_fn(), "\n";`},
+			{"include_ret", `$r = include "@INC@/lib_ret.php";`, `$r = include "@INC@/lib_ret.php"; echo "include_ret=", json_encode($r), "\n";`},
+			{"require_once", `require_once "@INC@/lib_once.php";`, `$o = require_once "@INC@/lib_once.php"; echo "require_once=", json_encode($o), "|", once_fn(), "\n";`},
+			{"include_once_iface", `include_once "@INC@/lib_iface.php"; $x = new IncImpl();`, `include_once "@INC@/lib_iface.php"; echo "include_once_iface=", ((new IncImpl()) instanceof IncI ? "yes" : "no"), "|", json_encode(new IncImpl()), "\n";`},
+		}
+		var ab, bb strings.Builder
+		ab.WriteString("<?php\n")
+		bb.WriteString("<?php\n")
+		var names []string
+		for _, i := range r.Perm(len(uses))[:1+r.Intn(len(uses))] {
+			if r.Intn(3) != 0 {
+				ab.WriteString(uses[i].a + "\n")
+			}
+			bb.WriteString(uses[i].b + "\n")
+			names = append(names, uses[i].label)
+		}
+		return ab.String(), bb.String(), []string{"shared_include:" + strings.Join(names, "+")}
 	case 3:
 		// A: a whole file of the script corpus (run from its path); B: the basics
 		if c := loadCorpusAll(); len(c) > 0 {
